@@ -139,7 +139,13 @@ func (g G) DualConfig() []DualItem {
 				continue
 			}
 			usedData[nm] = true
-			items = append(items, DualItem{Kind: "block", Name: "data", Labels: []string{nm}, Body: []DualItem{{Kind: "attr", Name: "q", Value: ptrDV(g.dualLitString())}}})
+			it := DualItem{Kind: "block", Name: "data", Labels: []string{nm}, Body: []DualItem{{Kind: "attr", Name: "q", Value: ptrDV(g.dualLitString())}}}
+			if g.Chance(55) {
+				// a reference that declares the address it names (Reference.Address): interpolated or legacy bare string in JSON
+				it.Body = append(it.Body, DualItem{Kind: "attr", Name: "alias", Value: &DualValue{Kind: Pick(g, []string{"ref", "bare"}),
+					Ref: "prov." + Pick(g, refNames) + Pick(g, []string{"", "", ".west"})}})
+			}
+			items = append(items, it)
 		default:
 			nm := Pick(g, refNames)
 			if usedOut[nm] {
@@ -235,6 +241,9 @@ func (g G) RefSchemaSimple() m.BodyM {
 	}}}
 	out.Body.Attrs["lit"] = m.AttrM{Flag: "optional", Cons: litStr}
 	root.Blocks["output"] = out
+	data := root.Blocks["data"]
+	data.Body.Attrs["alias"] = m.AttrM{Flag: "optional", Cons: m.ConsM{K: "ref", AddrScope: "alias", Name: "alias"}}
+	root.Blocks["data"] = data
 	return root
 }
 
